@@ -194,7 +194,7 @@ def gen_workload(rng, cfg, thorough):
                     kind = rng.choice(['truncate', 'truncate', 'zeros', 'ff', 'text', 'empty', 'exotic'])
                     env.append(['damage', key, kind, rng.random()])
                 elif r < 0.94:
-                    env.append(['del_stamp'])
+                    env.append([rng.choice(['del_stamp', 'del_stamp', 'empty_stamp', 'garble_stamp'])])
                 else:
                     env.append(['stray_tmp'])
             if cfg['family'] == 'oserr' and 'ENOSPC' in cfg['errs'] and rng.random() < 0.6:
@@ -615,6 +615,16 @@ class CacheSim(object):
                 self.world.record(-1, 'ENV:del_stamp', None, None, 'ok')
             except OSError:
                 self.world.record(-1, 'ENV:del_stamp', None, None, 'absent')
+        elif kind in ('empty_stamp', 'garble_stamp'):
+            # what a scanner killed while (re)writing the stamp in place, or a full disk, leaves behind
+            done = 'absent'
+            for d in self._candidate_cachedirs():
+                node = fs.lookup(d + '/' + STAMP)
+                if node is not None:
+                    node.data[:] = b'' if kind == 'empty_stamp' else bytes(node.data[:7]) + b'???'
+                    node.mtime_ns = fs.stamp()
+                    done = 'ok'
+            self.world.record(-1, 'ENV:' + kind, None, None, done)
         elif kind == 'stray_tmp':
             node = fs.env_write_file(TMP + '/g-ir-scanner-cache-stray%d' % self.world.seq, b'\x80\x04partial')
             node.tag['sv'] = self.scanner_version
